@@ -414,7 +414,9 @@ func updateFolder(folderID string, req *UpdateFolderRequest, myid int64) error {
 	}
 
 	// If moving to new parent
+	moved := false
 	if req.ParentID != "" && req.ParentID != folder.ParentID {
+		moved = true
 		// Validate new parent exists and is a folder
 		newParent, exists := structure.Items[req.ParentID]
 		if !exists {
@@ -448,21 +450,20 @@ func updateFolder(folderID string, req *UpdateFolderRequest, myid int64) error {
 	}
 
 	// Update name if provided
-	if req.Name != "" && req.Name != folder.Name {
-		// Check for duplicate names in the same parent
-		parentID := folder.ParentID
-		if req.ParentID != "" {
-			parentID = req.ParentID
-		}
-
-		for _, siblingID := range structure.Order[parentID] {
+	newName := folder.Name
+	if req.Name != "" {
+		newName = req.Name
+	}
+	if moved || newName != folder.Name {
+		// Check for duplicate names in the (new) parent: a moved folder must not collide either
+		for _, siblingID := range structure.Order[folder.ParentID] {
 			if sibling, exists := structure.Items[siblingID]; exists {
-				if sibling.Name == req.Name && siblingID != folderID {
-					return fmt.Errorf("updateFolder: folder with name %s already exists in this location", req.Name)
+				if sibling.Name == newName && siblingID != folderID {
+					return fmt.Errorf("updateFolder: folder with name %s already exists in this location", newName)
 				}
 			}
 		}
-		folder.Name = req.Name
+		folder.Name = newName
 	}
 
 	structure.Items[folderID] = folder
